@@ -35,7 +35,7 @@ PROPS["C10"] = {
             [H("c10_%s_ascii6" % n, "thorough", timeout=1800, cost=300,
                bounds="[u8;6] symbolic ASCII, len 0..=6 symbolic, unwind 9",
                asserts="try_from(&str).is_ok() == spec recogniser") for n in _names if n != "property"] +
-            [H("c10_%s_value4" % n, "quick", timeout=600, cost=70,
+            [H("c10_%s_value4" % n, "quick", timeout=600, cost=70, role=("main" if n == "busname" else "witness"),
                bounds="Value::Str of [u8;4] symbolic ASCII, len 0..=4, unwind 7",
                asserts="TryFrom<Value>.is_ok() == spec recogniser") for n in _names if n != "objpath"],
     }],
@@ -80,6 +80,48 @@ PROPS["C10"].update({
     "level_note": "bounded (strings <= 4 bytes arbitrary, <= 6 bytes ASCII; 255-byte limit by separate fixed-shape harnesses); trusts Kani/CBMC, the format! stub, and the reference recognisers (validated natively against the repo's examples each run)",
 })
 
+# ------------------------------------------------------------------ shared
+REC1 = {r"std::ptr::drop_glue::<[\w:]*Signature>": 1, r"<[\w:]*Signature as std::clone::Clone>::clone": 1}
+CLOSE_STUB = "<OwnedFd as Drop>::drop -> no-op (environment: close(2) and std's debug fcntl probe)"
+ZV = {"crate": "kani/zv", "selftest": True}
+ZV_INCRATE = {"crate": "/repo/zvariant", "in_repo": True, "in_crate_file": "zvariant.rs", "target": "zvariant-incrate"}
+ZV_INCRATE_GV = dict(ZV_INCRATE, features=["gvariant"], target="zvariant-incrate-gv")
+
+LEAF_BOUNDS = "value fully symbolic; message offset 0..15 symbolic; byte order symbolic; unwind 9"
+
+# ------------------------------------------------------------------ C01
+PROPS["C01"] = {
+    "claimed": False,
+    "groups": [
+        dict(ZV, harnesses=
+             [H("c01_enc_%s" % t, "quick" if t in "ut" else "thorough", timeout=900, cost=90, recursion_bounds=REC1, bounds=LEAF_BOUNDS,
+                asserts="to_writer_for_signature bytes and length == independent spec marshaller") for t in "ybnqiuxtd"] +
+             [H("c01_enc_%s" % t, "quick" if t == "s" else "thorough", timeout=900, cost=150, recursion_bounds=REC1,
+                bounds="text 0..=3 symbolic ASCII bytes; offset 0..15; byte order symbolic; unwind 9",
+                asserts="bytes and length == spec marshaller (u32 length, text, NUL)") for t in "so"] +
+             [H("c01_size_%s" % t, "quick" if t in "u" else "thorough", timeout=900, cost=60, recursion_bounds=REC1, bounds=LEAF_BOUNDS,
+                asserts="serialized_size().size() == bytes the rules prescribe; num_fds == 0") for t in "yqutb"]),
+        dict(ZV_INCRATE, harnesses=[
+            H("c01_padding_kernel", "quick", timeout=300, cost=10, bounds="value: every usize; align in {1,2,4,8}",
+              asserts="padding_for_n_bytes(value, align) == (-value) mod align"),
+        ]),
+    ],
+}
+
+# ------------------------------------------------------------------ C03
+PROPS["C03"] = {
+    "claimed": False,
+    "groups": [
+        dict(ZV, harnesses=
+             [H("c03_dec_%s" % t, "quick" if t in "ub" else "thorough", timeout=900, cost=60, recursion_bounds=REC1,
+                bounds="16 symbolic bytes, length 0..=16 symbolic, offset 0..7, byte order symbolic, unwind 9",
+                asserts="Ok iff the spec reader accepts; equal value and consumed count") for t in "ynqiuxtdb"] +
+             [H("c03_dec_%s" % t, "quick" if t == "s" else "thorough", timeout=1500, cost=200, recursion_bounds=REC1,
+                bounds="10 symbolic bytes, length 0..=10 symbolic, offset 0..3, byte order symbolic, unwind 12",
+                asserts="Ok iff the spec reader accepts (zero padding, length inside buffer, NUL terminator, no interior NUL, UTF-8, path grammar); equal text and consumed count") for t in "so"]),
+    ],
+}
+
 # ------------------------------------------------------------------ probes (not claimed)
 SIG_REC = {
     r"std::ptr::drop_glue::<zvariant::Signature>": 2,
@@ -93,7 +135,6 @@ PROPS["PROBE"] = {"claimed": False, "groups": [{"crate": "kani/zv", "harnesses":
 ]}]}
 
 # ------------------------------------------------------------------ C07
-ZV_INCRATE = {"crate": "/repo/zvariant", "in_repo": True, "in_crate_file": "zvariant.rs", "target": "zvariant-incrate"}
 PROPS["C07"] = {
     "claimed": False,
     "groups": [dict(ZV_INCRATE, harnesses=[
@@ -114,3 +155,17 @@ PROPS["PROBE4"] = {"claimed": False, "groups": [{"crate": "kani/zv", "harnesses"
 PROPS["PROBE5"] = {"claimed": False, "groups": [{"crate": "kani/zv", "harnesses": [
     H("r1", timeout=600, recursion_bounds=REC1, kani_args=["--no-default-checks"]),
     H("r3", timeout=600, recursion_bounds=REC1, kani_args=["--no-default-checks"])]}]}
+PROPS["PROBE6"] = {"claimed": False, "groups": [{"crate": "kani/sig", "harnesses": [
+    H("c06_validate_len2", timeout=3000, mem_gb=24), H("c06_validate_len3", timeout=3000, mem_gb=24)]}]}
+
+# ------------------------------------------------------------------ C15
+ZB_INCRATE = {"crate": "/repo/zbus", "in_repo": True, "target": "zbus-incrate"}
+PROPS["C15"] = {
+    "claimed": False,
+    "groups": [dict(ZB_INCRATE, in_crate_file="zbus_header.rs", harnesses=[
+        H("c15_serial_step", timeout=900, cost=60, bounds="counter state: every u32 (incl. 0 and u32::MAX); two consecutive PrimaryHeader::new calls",
+          asserts="serial != 0; serial == c (or 1 when c == 0); counter advances exactly; consecutive serials differ"),
+        H("c15_serial_three_distinct", timeout=900, cost=60, bounds="counter state: every u32; three consecutive calls",
+          asserts="pairwise distinct, non-zero"),
+    ])],
+}
